@@ -1,3 +1,50 @@
 package main
 
-func selftest() int { return 0 }
+import (
+	"fmt"
+	"os"
+	"runtime"
+)
+
+// selftest validates the engine's models of library functions against the real functions
+// (harness package internal/zzself): inputs are symbolic but pinned to constants, so every
+// assertion must be discharged by the solver; any violation, unsupported path or solver
+// unknown fails the self-test.
+func selftest() int {
+	prog, err := loadProgram()
+	if err != nil {
+		fmt.Fprintln(os.Stderr, "selftest: cannot load:", err)
+		return 2
+	}
+	var jobs []*Job
+	for i := 0; i < 15; i++ {
+		jobs = append(jobs, mkJob("/internal/zzself.ZZ_Self_Strings", "", "i", itoa(i)))
+	}
+	for i := 0; i < 26; i++ {
+		jobs = append(jobs, mkJob("/internal/zzself.ZZ_Self_Runes", "", "i", itoa(i)))
+	}
+	ex := NewExplorer(prog, runtime.NumCPU())
+	ex.Run(jobs)
+	bad := 0
+	paths := 0
+	for _, j := range jobs {
+		for k, n := range j.paths {
+			paths += n
+			switch k {
+			case "returned", "assume-false":
+			default:
+				bad += n
+				fmt.Fprintf(os.Stderr, "selftest: %s: %d paths ended %s %v\n", j.Name, n, k, j.unsupported)
+			}
+		}
+		for _, v := range dedupViolations(j.violations) {
+			bad++
+			fmt.Fprintf(os.Stderr, "selftest: model disagrees with library: %s in %s (%v)\n", v.Label, j.Name, v.Vals)
+		}
+	}
+	fmt.Fprintf(os.Stderr, "selftest: %d jobs, %d paths, %d solver queries, %d problems\n", len(jobs), paths, ex.solverStats.q, bad)
+	if bad > 0 {
+		return 1
+	}
+	return 0
+}
